@@ -23,9 +23,11 @@ KJ = ufl2coq.KIND_OF_GEOMETRY["Jacobian"]
 
 
 def erf_literal():
-    """2/sqrt(pi) in binary64, from the mathematical formula (independent of the code under test)."""
+    """2/sqrt(pi) in binary64, from the mathematical formula (independent of the code under test):
+    the value m * 2^e (e < 0) as the term the denotation of the literal RealV m e reduces to."""
     m, e = ufl2coq.dyadic(2.0 / math.sqrt(math.pi))
-    return f"(RealV {ufl2coq.znum(m)} {ufl2coq.znum(e)})"
+    assert e < 0 and m > 0
+    return f"div (@of_Z A {m}%Z) (@of_pos A (2 ^ {-e})%positive)"
 
 
 def extra_header(affine=True):
@@ -39,7 +41,7 @@ def extra_header(affine=True):
     else:
         geo += "Ltac dx_geo := idtac.\n"
     return (LAWS.replace("@ERF@", erf_literal()).replace("@KX@", str(KX)).replace("@KCONST@", str(ufl2coq.KIND_CONSTANT))
-            + geo + TACTICS)
+            + geo + TACTICS + TACTICS_COMMON + TACTICS_CLOSE)
 
 
 # Laws of the differential ring in which Grad is interpreted.  [Dx j] is a derivation of the algebra
@@ -48,7 +50,7 @@ def extra_header(affine=True):
 LAWS = r'''
 Hypothesis HDx : forall j, @Derivation A (Dx j).
 Notation two := (add z1 z1).
-Definition erf_c : KT := DEN None (fun _ => 0) @ERF@ [].
+Definition erf_c : KT := @ERF@.
 Definition dfn (f : mathfn) (x : KT) : KT :=
   match f with
   | FSqrt => inv (mul two (fn FSqrt x))
@@ -79,11 +81,22 @@ Hypothesis Dx_min : forall j x y, Dx j (min_ x y) =
 Hypothesis Dx_atan2 : forall j x y, Dx j (atan2 x y) =
   div (sub (mul y (Dx j x)) (mul x (Dx j y))) (add (mul x x) (mul y y)).
 Hypothesis Dx_ki : forall j, Dx j ki = z0.
+(* re/im/conj of zero (they are additive maps) *)
+Hypothesis re_z0 : re z0 = z0.
+Hypothesis im_z0 : im z0 = z0.
+Hypothesis conj_z0 : conj z0 = z0.
+(* a conditional with equal branches *)
+Hypothesis cond_same : forall b x, cond_ b x x = x.
+(* partial derivatives commute (used only as a last resort, to reorder nested derivatives) *)
+Hypothesis Dx_comm : forall i j a, Dx i (Dx j a) = Dx j (Dx i a).
 (* spatial coordinate: dx_i/dx_j = delta_ij;  Constants do not vary in space *)
 Hypothesis Dx_x : forall s id i j, Dx j (env s @KX@ id [i]) = if Nat.eqb i j then z1 else z0.
 Hypothesis Dx_const : forall s id c j, Dx j (env s @KCONST@ id c) = z0.
 
 Lemma div_def x y : div x y = mul x (inv y). Proof. apply (Fdiv_def Fth). Qed.
+Lemma Dx_comm_10 a : Dx 1 (Dx 0 a) = Dx 0 (Dx 1 a). Proof. apply Dx_comm. Qed.
+Lemma Dx_comm_20 a : Dx 2 (Dx 0 a) = Dx 0 (Dx 2 a). Proof. apply Dx_comm. Qed.
+Lemma Dx_comm_21 a : Dx 2 (Dx 1 a) = Dx 1 (Dx 2 a). Proof. apply Dx_comm. Qed.
 Lemma Dx_add j x y : Dx j (add x y) = add (Dx j x) (Dx j y). Proof. apply (d_add A (Dx j) (HDx j)). Qed.
 Lemma Dx_mul j x y : Dx j (mul x y) = add (mul (Dx j x) y) (mul x (Dx j y)).
 Proof. apply (d_mul A (Dx j) (HDx j)). Qed.
@@ -96,6 +109,12 @@ Lemma Dx_z1 j : Dx j z1 = z0. Proof. apply (d_one A (Dx j) (HDx j)). Qed.
 Lemma Dx_conj j x : Dx j (conj x) = conj (Dx j x). Proof. apply (d_conj A (Dx j) (HDx j)). Qed.
 Lemma Dx_re j x : Dx j (re x) = re (Dx j x). Proof. apply (d_re A (Dx j) (HDx j)). Qed.
 Lemma Dx_im j x : Dx j (im x) = im (Dx j x). Proof. apply (d_im A (Dx j) (HDx j)). Qed.
+Lemma Dx_numdiv j (a b : KT) : Dx j a = z0 -> Dx j b = z0 -> Dx j (div a b) = z0.
+Proof. intros Ha Hb. rewrite Dx_div, Ha, Hb, !div_def. ring. Qed.
+Lemma Dx_erf_c j : Dx j erf_c = z0.
+Proof.
+  unfold erf_c. apply Dx_numdiv; [ apply (d_of_Z A (Dx j) _ (HDx j)) | apply (d_of_pos A (Dx j) _ (HDx j)) ].
+Qed.
 Lemma Dx_cond j b x y : Dx j (cond_ b x y) = cond_ b (Dx j x) (Dx j y).
 Proof. apply (d_cond A (Dx j) (HDx j)). Qed.
 '''
@@ -108,10 +127,32 @@ Ltac dx_local :=
          end.
 Ltac dx_step :=
   progress (rewrite ?Dx_add, ?Dx_mul, ?Dx_div, ?Dx_sub, ?Dx_opp, ?Dx_z0, ?Dx_z1, ?Dx_conj, ?Dx_re, ?Dx_im,
-            ?Dx_cond, ?Dx_fn, ?Dx_pow, ?Dx_abs, ?Dx_max, ?Dx_min, ?Dx_atan2, ?Dx_ki, ?Dx_x, ?Dx_const;
-            dx_geo; dx_local).
+            ?Dx_cond, ?Dx_fn, ?Dx_pow, ?Dx_abs, ?Dx_max, ?Dx_min, ?Dx_atan2, ?Dx_ki, ?Dx_x, ?Dx_const,
+            ?Dx_erf_c, ?re_z0, ?im_z0, ?conj_z0;
+            dx_geo; dx_local; cbv [dfn sign_]).
 Ltac dx_push := repeat dx_step.
-Ltac arg_eq2 := first [ reflexivity | ring | rewrite ?div_def; ring | field; nz_solve char0 ].
+'''
+
+TACTICS_COMMON = r'''
+Ltac is_num X :=
+  lazymatch X with
+  | z0 => idtac | z1 => idtac
+  | add ?a ?b => is_num a; is_num b
+  | mul ?a ?b => is_num a; is_num b
+  | sub ?a ?b => is_num a; is_num b
+  | opp ?a => is_num a
+  | _ => fail
+  end.
+(* inverses of non-numerals become opaque atoms, so that [field] only has to invert numerals *)
+Ltac hide_inv :=
+  repeat match goal with
+         | |- context [inv ?X] =>
+             tryif is_num X then fail
+             else (let v := fresh "iv" in set (v := inv X) in *; clearbody v)
+         end.
+Lemma inv_one : inv z1 = z1. Proof. field. apply (F_1_neq_0 Fth). Qed.
+Ltac arg_eq2 := first [ reflexivity | ring | rewrite ?div_def, ?inv_one; ring
+                      | rewrite ?div_def; hide_inv; field; nz_solve char0 | field; nz_solve char0 ].
 Ltac unify_b :=
   match goal with
   | |- context [inv ?X] =>
@@ -151,28 +192,155 @@ Ltac unify_b :=
           replace (cond_ b X P) with (cond_ b Y Q) by (f_equal; arg_eq2)
       end
   end.
-Ltac is_num X :=
-  lazymatch X with
-  | z0 => idtac | z1 => idtac
-  | add ?a ?b => is_num a; is_num b
-  | mul ?a ?b => is_num a; is_num b
-  | sub ?a ?b => is_num a; is_num b
-  | opp ?a => is_num a
-  | _ => fail
-  end.
-(* inverses of non-numerals become opaque atoms, so that [field] only has to invert numerals *)
-Ltac hide_inv :=
+(* conditionals both of whose branches are (ring-)equal to zero, e.g. derivatives of literals *)
+Ltac cond_zero :=
   repeat match goal with
-         | |- context [inv ?X] =>
-             tryif is_num X then fail
-             else (let v := fresh "iv" in set (v := inv X) in *; clearbody v)
+         | |- context [cond_ ?b ?X ?Y] =>
+             lazymatch constr:((X, Y)) with (z0, z0) => fail | _ => idtac end;
+             replace (cond_ b X Y) with z0
+               by (transitivity (cond_ b z0 z0); [ symmetry; apply cond_same | f_equal; symmetry; arg_eq2 ])
          end.
 Ltac fin := first [ reflexivity | ring | rewrite ?div_def; ring
                   | rewrite ?div_def; hide_inv; field; nz_solve char0
                   | field; nz_solve char0 ].
+'''
+
+TACTICS_CLOSE = r'''
 Ltac c03_close :=
-  norm_goal; dx_push; cbv [dfn sign_ erf_c]; norm_goal;
+  norm_goal; dx_push; cbv [dfn sign_ erf_c]; norm_goal; cond_zero; rewrite ?cond_same;
   first [ fin
         | repeat unify1; fin
-        | rewrite ?div_def; repeat first [ unify1 | unify_b ]; fin ].
+        | rewrite ?div_def; repeat first [ unify1 | unify_b ]; fin
+        | repeat (progress rewrite ?Dx_comm_10, ?Dx_comm_20, ?Dx_comm_21);
+          first [ fin | rewrite ?div_def; repeat first [ unify1 | unify_b ]; fin ] ].
 '''
+
+
+
+def extra_header_ref():
+    """Header of the reference-frame family: Dx and DX are derivations; the chain rule through the cell
+    map and the constancy of K, J, detJ on affine cells are per-case hypotheses."""
+    return (LAWS_REF.replace("@KX@", str(KX)).replace("@KXREF@", str(KXREF))
+            .replace("@KCONST@", str(ufl2coq.KIND_CONSTANT)) + TACTICS_COMMON + TACTICS_REF)
+
+
+LAWS_REF = r'''
+Hypothesis HDx : forall j, @Derivation A (Dx j).
+Hypothesis HDX : forall j, @Derivation A (DX j).
+Hypothesis Dx_x : forall s id i j, Dx j (env s @KX@ id [i]) = if Nat.eqb i j then z1 else z0.
+Hypothesis DX_X : forall s id i j, DX j (env s @KXREF@ id [i]) = if Nat.eqb i j then z1 else z0.
+Hypothesis Dx_const : forall s id c j, Dx j (env s @KCONST@ id c) = z0.
+Hypothesis DX_const : forall s id c j, DX j (env s @KCONST@ id c) = z0.
+Hypothesis cond_same : forall b x, cond_ b x x = x.
+Lemma div_def x y : div x y = mul x (inv y). Proof. apply (Fdiv_def Fth). Qed.
+Lemma Dx_add j x y : Dx j (add x y) = add (Dx j x) (Dx j y). Proof. apply (d_add A (Dx j) (HDx j)). Qed.
+Lemma Dx_mul j x y : Dx j (mul x y) = add (mul (Dx j x) y) (mul x (Dx j y)).
+Proof. apply (d_mul A (Dx j) (HDx j)). Qed.
+Lemma Dx_div j x y : Dx j (div x y) = div (sub (Dx j x) (mul (div x y) (Dx j y))) y.
+Proof. apply (d_div A (Dx j) (HDx j)). Qed.
+Lemma Dx_sub j x y : Dx j (sub x y) = sub (Dx j x) (Dx j y). Proof. apply (d_sub A (Dx j) x y (HDx j)). Qed.
+Lemma Dx_opp j x : Dx j (opp x) = opp (Dx j x). Proof. apply (d_opp A (Dx j) x (HDx j)). Qed.
+Lemma Dx_z0 j : Dx j z0 = z0. Proof. apply (d_zero A (Dx j) (HDx j)). Qed.
+Lemma Dx_z1 j : Dx j z1 = z0. Proof. apply (d_one A (Dx j) (HDx j)). Qed.
+Lemma DX_add j x y : DX j (add x y) = add (DX j x) (DX j y). Proof. apply (d_add A (DX j) (HDX j)). Qed.
+Lemma DX_mul j x y : DX j (mul x y) = add (mul (DX j x) y) (mul x (DX j y)).
+Proof. apply (d_mul A (DX j) (HDX j)). Qed.
+Lemma DX_div j x y : DX j (div x y) = div (sub (DX j x) (mul (div x y) (DX j y))) y.
+Proof. apply (d_div A (DX j) (HDX j)). Qed.
+Lemma DX_sub j x y : DX j (sub x y) = sub (DX j x) (DX j y). Proof. apply (d_sub A (DX j) x y (HDX j)). Qed.
+Lemma DX_opp j x : DX j (opp x) = opp (DX j x). Proof. apply (d_opp A (DX j) x (HDX j)). Qed.
+Lemma DX_z0 j : DX j z0 = z0. Proof. apply (d_zero A (DX j) (HDX j)). Qed.
+Lemma DX_z1 j : DX j z1 = z0. Proof. apply (d_one A (DX j) (HDX j)). Qed.
+'''
+
+TACTICS_REF = r'''
+Ltac dX_local :=
+  repeat match goal with
+         | H : (forall s c k, DX k (env s _ _ c) = z0) |- _ => progress rewrite !H
+         end.
+Ltac dxr_push :=
+  repeat (progress (rewrite ?Dx_add, ?Dx_mul, ?Dx_div, ?Dx_sub, ?Dx_opp, ?Dx_z0, ?Dx_z1, ?Dx_x, ?Dx_const)).
+Ltac chain_all :=
+  match goal with
+  | H : (forall j a, Dx j a = _) |- _ => repeat rewrite H
+  end.
+Ltac dX_push :=
+  repeat (progress (rewrite ?DX_add, ?DX_mul, ?DX_div, ?DX_sub, ?DX_opp, ?DX_z0, ?DX_z1, ?DX_X, ?DX_const;
+                    dX_local)).
+Ltac c03r_close :=
+  norm_goal; dxr_push; try chain_all; dX_push; norm_goal;
+  first [ fin | repeat unify1; fin | rewrite ?div_def; repeat first [ unify1 | unify_b ]; fin ].
+'''
+
+
+def emit_and_check(run, pid, cases, shards=None, timeout=900, extra_header="", max_rounds=8):
+    """Variant of coqgen.emit_and_check: when a lemma of a case fails, ALL remaining lemmas of that case are
+    masked (`Abort`) before the file is re-checked, so that a broken rule costs one extra round per case
+    instead of one per component.  Masked lemmas stay in `obligations` but are never counted as discharged.
+    Returns the list of (case, first failing lemma, message)."""
+    import os
+
+    import coqgen
+    import vlib
+    shards = shards or min(vlib.NCPU, max(1, len(cases)))
+    texts = [(c, c.emit()) for c in cases]
+    bins, load = [[] for _ in range(shards)], [0] * shards
+    for c, t in sorted(texts, key=lambda x: -len(x[1])):
+        k = load.index(min(load))
+        bins[k].append((c, t))
+        load[k] += len(t) * max(1, len(c.lemmas))
+    paths, by_file = [], {}
+    for k, b in enumerate(bins):
+        if not b:
+            continue
+        b.sort(key=lambda x: x[0].name)
+        path = os.path.join(vlib.GEN, f"{pid}_t2_{k}.v")
+        vlib.write_if_changed(path, coqgen.HEADER + extra_header + "".join(t for _, t in b) + coqgen.FOOTER)
+        paths.append(path)
+        by_file[path] = [c for c, _ in b]
+    for f in os.listdir(vlib.GEN):
+        if f.startswith(f"{pid}_t2_") and f.endswith(".v") and os.path.join(vlib.GEN, f) not in paths:
+            os.remove(os.path.join(vlib.GEN, f))
+    failing, pending, rounds = [], list(paths), 0
+    masked = {p: set() for p in paths}
+
+    def mask(src, name):
+        for kw in ("Lemma", "Example"):
+            key = f"{kw} {name} "
+            if key in src:
+                i = src.index(key)
+                k0, j = src.index("Proof.", i), src.index("Qed.", i)
+                return src[:k0] + "Proof. Abort. (* MASKED *)" + src[j + 4:]
+        return src
+
+    while pending and rounds < max_rounds:
+        rounds += 1
+        nxt = []
+        for r in vlib.coqc_many(pending, timeout=timeout):
+            run.extra.setdefault('coqc_wall_s', {})[os.path.basename(r.path)] = round(r.wall, 1)
+            names = [l for c in by_file[r.path] for l in c.lemmas if l not in masked[r.path]]
+            if r.ok:
+                run.add_coq_result(r, names)
+                continue
+            fl = r.failing_lemma()
+            case = next((c for c in by_file[r.path] if fl in c.lemmas), None)
+            msg = " ".join((r.err or "").strip().split("\n")[-3:])[:300]
+            failing.append((case, fl, msg))
+            if case is None or rounds >= max_rounds:
+                run.add_coq_result(r, names)
+                continue
+            rel = os.path.relpath(r.path, vlib.COQ)
+            src = open(r.path).read()
+            for l in case.lemmas[case.lemmas.index(fl):]:
+                if l in masked[r.path]:
+                    continue
+                run.obligations.append((l, rel))
+                masked[r.path].add(l)
+                src = mask(src, l)
+            run.failed.append((fl, rel, msg))
+            with open(r.path, "w") as f:
+                f.write(src)
+            nxt.append(r.path)
+        pending = nxt
+    run.checker_cmds.append(f"coqc -Q coq UFLV coq/Gen/{pid}_t2_*.v")
+    return failing
